@@ -89,7 +89,28 @@ fn gen_content(t: &mut Tape, labels: &mut Vec<&'static str>) -> Vec<u8> {
         b"$Id$Id$",
         b"$",
     ];
-    let style = t.weighted(&[2, 2, 5, 1]);
+    if t.chance(28) {
+        // text/binary auto-detection boundary: binary iff (printable >> 7) < non_printable
+        labels.push("binary-boundary");
+        let k = t.range(1, 3);
+        let printable = *t.pick(&[128 * k - 2, 128 * k - 1, 128 * k, 128 * k, 128 * k + 1, 128 * k + 127, 256 * k - 1, 256 * k]);
+        let eol: &[u8] = *t.pick(&[&b"\n"[..], &b"\r\n"[..]]);
+        let mut out = Vec::new();
+        let mut left = printable;
+        let mut ctl = k;
+        while left > 0 || ctl > 0 {
+            let run = left.min(t.range(1, 60));
+            out.extend(std::iter::repeat(b'q').take(run));
+            left -= run;
+            if ctl > 0 && (left == 0 || t.bool()) {
+                out.push(*t.pick(b"\x01\x7f\x02\x1f"));
+                ctl -= 1;
+            }
+            out.extend_from_slice(eol);
+        }
+        return out;
+    }
+    let style = t.weighted(&[2, 3, 5, 1]);
     let n = t.weighted(&[1, 2, 3, 4, 4, 3, 2, 2, 1, 1, 1, 1, 1]);
     let mut out = Vec::new();
     if t.chance(10) {
@@ -185,9 +206,18 @@ fn gen_world(t: &mut Tape, labels: &mut Vec<&'static str>) -> WorldSpec {
         });
     }
     if use_index {
+        // one plain CRLF text and one plain LF text, which often are what the index holds for the other paths
+        files[0].content = b"one\r\ntwo\r\n".to_vec();
+        if n > 1 {
+            files[1].content = b"one\ntwo\n".to_vec();
+        }
         for i in 0..n {
-            if t.chance(170) {
-                files[i].prior = Some(t.below(n));
+            if t.chance(190) {
+                files[i].prior = Some(match t.weighted(&[3, 1, 3]) {
+                    0 => 0,
+                    1 => 1.min(n - 1),
+                    _ => t.below(n),
+                });
             }
         }
     }
@@ -399,7 +429,7 @@ pub fn main() {
             if !ok {
                 let e = String::from_utf8_lossy(&err).to_string();
                 if is_roundtrip_error(&e) && strict {
-                    c.fail_sig("safecrlf-git-refuses-only", format!("git add refuses ({}) but gitoxide converts every file of the batch without round-trip error; world: {}", e.trim(), (0..w.files.len()).map(describe).collect::<Vec<_>>().join(" || ")));
+                    c.fail_sig(safecrlf_refusal_sig(&e, &w, &mut pipe, index_state), format!("git add refuses ({}) but gitoxide converts every file of the batch without round-trip error; world: {}", e.trim(), (0..w.files.len()).map(describe).collect::<Vec<_>>().join(" || ")));
                 } else {
                     c.infra(format!("git update-index --add failed: {e}"));
                 }
@@ -435,7 +465,7 @@ pub fn main() {
             if !ok {
                 let e = String::from_utf8_lossy(&err).to_string();
                 if is_roundtrip_error(&e) && strict {
-                    c.fail_sig("safecrlf-git-refuses-only", format!("git hash-object -w refuses ({}) but gitoxide converts every file of the batch without round-trip error; world: {}", e.trim(), (0..w.files.len()).map(describe).collect::<Vec<_>>().join(" || ")));
+                    c.fail_sig(safecrlf_refusal_sig(&e, &w, &mut pipe, index_state), format!("git hash-object -w refuses ({}) but gitoxide converts every file of the batch without round-trip error; world: {}", e.trim(), (0..w.files.len()).map(describe).collect::<Vec<_>>().join(" || ")));
                 } else {
                     c.infra(format!("git hash-object failed: {e}"));
                 }
@@ -470,6 +500,16 @@ pub fn main() {
                                     if v == stored {
                                         sig = "trailing-ctrl-z-counts-as-non-printable";
                                     }
+                                }
+                            }
+                        }
+                        if sig.is_empty() {
+                            // the same deviation through the blob the index holds for the path: git takes it for text (trailing ^Z
+                            // not counted) and keeps CRLF, gitoxide takes it for binary and converts
+                            if let Some(p) = f.prior {
+                                let prior = &w.files[p].content;
+                                if prior.last() == Some(&0x1a) && prior.find(b"\r\n").is_some() && stored.replace("\r\n", "\n") == *g {
+                                    sig = "trailing-ctrl-z-counts-as-non-printable";
                                 }
                             }
                         }
@@ -538,6 +578,34 @@ pub fn main() {
                             return Err("ident-expansion-lacks-space");
                         }
                         if git_reexpand(&with_space, &raw_ids[i]) == reference {
+                            return Err("ident-keeps-stale-expansion");
+                        }
+                        // stale expansions can also change where the next marker starts ("$Id: unterminated$Id$"). Still the same
+                        // deviation if, line endings aside, git did what git's algorithm does to the blob, gitoxide did what its
+                        // documented algorithm does (only "$Id$" is expanded), and both produced the same sequence of line endings
+                        // (the ident filter never touches those).
+                        let strip_cr = |v: &[u8]| v.iter().copied().filter(|b| *b != b'\r').collect::<Vec<u8>>();
+                        let eols = |v: &[u8]| {
+                            let mut out = Vec::new();
+                            let mut k = 0;
+                            while k < v.len() {
+                                if v[k] == b'\r' && v.get(k + 1) == Some(&b'\n') {
+                                    out.push(2u8);
+                                    k += 2;
+                                    continue;
+                                }
+                                if v[k] == b'\r' || v[k] == b'\n' {
+                                    out.push(v[k]);
+                                }
+                                k += 1;
+                            }
+                            out
+                        };
+                        let gix_algorithm = f.content.replace("$Id$", format!("$Id: {}$", raw_ids[i]));
+                        if strip_cr(reference) == strip_cr(&git_reexpand(&f.content, &raw_ids[i]))
+                            && strip_cr(g) == strip_cr(&gix_algorithm)
+                            && eols(reference) == eols(g)
+                        {
                             return Err("ident-keeps-stale-expansion");
                         }
                         if f.content.last() == Some(&0x1a) {
@@ -672,6 +740,27 @@ fn git_reexpand(buf: &[u8], hex: &str) -> Vec<u8> {
     }
     out.extend_from_slice(src);
     out
+}
+
+/// git refused a file under core.safecrlf=true which gitoxide converted: is it the known trailing-^Z text/binary deviation?
+fn safecrlf_refusal_sig(
+    git_stderr: &str,
+    w: &WorldSpec,
+    pipe: &mut gix::filter::Pipeline<'_>,
+    index: &gix_index::State,
+) -> &'static str {
+    let name = git_stderr.trim().rsplit(" in ").next().unwrap_or("").trim();
+    if let Some(f) = w.files.iter().find(|f| f.name == name) {
+        if f.content.last() == Some(&0x1a) {
+            let cut = &f.content[..f.content.len() - 1];
+            if let Err(e) = pipe.convert_to_git(cut, Path::new(&f.name), index) {
+                if is_roundtrip_error(&error_chain(&e)) {
+                    return "trailing-ctrl-z-counts-as-non-printable";
+                }
+            }
+        }
+    }
+    "safecrlf-git-refuses-only"
 }
 
 /// Both buffers around their first difference.
